@@ -248,7 +248,7 @@ where
     }
     let cs = CursorScn {
         funcs: vec![tag],
-        clients: vec![Client { func: 0, kind: ClientKind::Eval }, Client { func: 0, kind: ClientKind::Stream }],
+        clients: vec![Client { func: 0, kind: ClientKind::Eval, from: 0 }, Client { func: 0, kind: ClientKind::Stream, from: 0 }],
         events,
         batches: vec![],
     };
@@ -408,6 +408,32 @@ fn gen_scn(rng: &mut Rng, _tier: Tier) -> ByteScn {
     };
     for _ in 0..piece_bytes {
         bytes.push(rng.next_u64() as u8);
+    }
+    // leftover input after the pieces: whatever consumes it (an extended `arbitrary_take_rest`, extra
+    // fields) sees encodings of numbers related to the breakpoints rather than noise
+    if piece_bytes >= per_piece * n && rng.chance(1, 3) {
+        // start exactly where the pieces end
+        bytes.truncate(header_len + per_piece * n);
+        let last = ends.last().copied().unwrap_or(1.0);
+        let first = ends.first().copied().unwrap_or(1.0);
+        for _ in 0..rng.usize_in(1, 3) {
+            if rng.chance(1, 2) {
+                bytes.push((rng.next_u64() as u8) | 1);
+            }
+            let v = match rng.below(10) {
+                0 => last.abs(),
+                1 => -last,
+                2 => first.abs(),
+                3 => f64::MAX,
+                4 => 1e308,
+                5 => 2.5 * f64::MIN_POSITIVE,
+                6 => last.abs() + 2.5 * f64::MIN_POSITIVE,
+                7 => 0.0,
+                8 => f64::INFINITY,
+                _ => f64::from_bits(rng.next_u64()),
+            };
+            bytes.extend_from_slice(&v.to_bits().to_le_bytes());
+        }
     }
     ByteScn { kind, take_rest, bytes, header_len, moves }
 }
